@@ -250,6 +250,7 @@ func runC12(c *Ctx) {
 	// after a pull the excerpts queried are those of the merged entities (shared with C02/C11)
 	checkCacheMergeFold(c, "R2.6")
 	checkResolversNotMemoised(c, "R12.11")
+	checkExcerptsDeletedOnlyByRemoval(c, "R11.13")
 	checkRepairQuery(c)
 	checkMatch(c)
 	checkLexerAutomaton(c)
